@@ -90,6 +90,15 @@ func runCheck(repo, verif, prop, tier string) int {
 		return r.Finish(verif, start, seed, loadInfo)
 	}
 	fn(p, r)
+	if tier == "thorough" {
+		expl := r.Explanation
+		for _, dep := range nc.ThoroughDeps[prop] {
+			if df, ok := nc.Registry[dep]; ok {
+				r.Rule("dep:"+dep, "obligations of "+dep+", on which "+prop+" relies (thorough tier)", func() { df(p, r) })
+			}
+		}
+		r.Explanation = expl + " Thorough tier: additionally all obligations of the properties this one relies on (" + fmt.Sprint(nc.ThoroughDeps[prop]) + ") are re-evaluated, with the full syntax of all dependencies loaded."
+	}
 	return r.Finish(verif, start, seed, loadInfo)
 }
 
